@@ -33,7 +33,10 @@ var numbers = []string{"", "0", "1", "-1", "0.5", "0.1", "1e100", "-1e-20", "123
 
 var nullTypes = []cty.Type{cty.NilType, cty.DynamicPseudoType, cty.String, cty.List(cty.String)}
 
-type conv struct{ rng *rand.Rand; pick map[string]string }
+type conv struct {
+	rng  *rand.Rand
+	pick map[string]string
+}
 
 func newConv(seed int64) *conv {
 	c := &conv{pick: map[string]string{}}
